@@ -29,6 +29,7 @@ type RuleSpec struct {
 	Item *RuleSpec
 
 	ExplicitUnspecified bool // the inline enum declares UNSPECIFIED explicitly
+	ProtoEnum           bool // the enum is declared in a hand-written proto file with the numbers 1, 5, 10
 	StrMin, StrMax *string // date / decimal bounds
 	ListFilter, ListSort, ListSearchable bool
 
@@ -45,6 +46,16 @@ func (rs *RuleSpec) program() *Program {
 	var t *Type
 	switch rs.Family {
 	case "enum":
+		if rs.ProtoEnum {
+			pf := &File{Dir: "t/v1", Name: "levels", IsProto: true}
+			e := &Decl{Kind: DEnum, Name: "Level", Options: []EnumOpt{{Name: "ALPHA", Number: 1}, {Name: "BETA", Number: 5}, {Name: "GAMMA", Number: 10}}}
+			pf.Add(e)
+			t = RefTo(e, "")
+			attrs := append([]string{}, rs.Attrs...)
+			fd := &Field{Name: "val", T: t, Required: rs.Required, Attrs: attrs, Rule: rs}
+			f.Add(obj("Holder", fd))
+			return &Program{Files: []*File{f, pf}}
+		}
 		e := enumD("", "ALPHA", "BETA", "GAMMA")
 		e.ExplicitUnspecified = rs.ExplicitUnspecified
 		t = InlineOf(e)
@@ -211,6 +222,16 @@ func RuleSpecs() []*RuleSpec {
 	add(&RuleSpec{ID: "enum:notin-one", Family: "enum", Kind: TEnum, NotIn: []string{"BETA"}, Attrs: []string{`rules.notIn = ["BETA"]`}})
 	add(&RuleSpec{ID: "enum:notin-two", Family: "enum", Kind: TEnum, NotIn: []string{"BETA", "GAMMA"}, Attrs: []string{`rules.notIn = ["BETA", "GAMMA"]`}})
 	add(&RuleSpec{ID: "enum:notin-unspecified", Family: "enum", Kind: TEnum, ExplicitUnspecified: true, NotIn: []string{"UNSPECIFIED", "BETA"}, Attrs: []string{`rules.notIn = ["UNSPECIFIED", "BETA"]`}})
+	for _, sub := range [][2][]string{{{"ALPHA", "BETA"}, nil}, {{"GAMMA"}, nil}, {nil, {"GAMMA"}}, {nil, {"ALPHA", "BETA"}}, {nil, nil}} {
+		rs := &RuleSpec{ID: fmt.Sprintf("enum:proto-declared:in=%s:notin=%s", strings.Join(sub[0], "+"), strings.Join(sub[1], "+")), Family: "enum", Kind: TEnum, ProtoEnum: true, In: sub[0], NotIn: sub[1]}
+		if len(sub[0]) > 0 {
+			rs.Attrs = append(rs.Attrs, `rules.in = ["`+strings.Join(sub[0], `", "`)+`"]`)
+		}
+		if len(sub[1]) > 0 {
+			rs.Attrs = append(rs.Attrs, `rules.notIn = ["`+strings.Join(sub[1], `", "`)+`"]`)
+		}
+		add(rs)
+	}
 	add(&RuleSpec{ID: "enum:in-unspecified", Family: "enum", Kind: TEnum, ExplicitUnspecified: true, In: []string{"UNSPECIFIED", "ALPHA"}, Attrs: []string{`rules.in = ["UNSPECIFIED", "ALPHA"]`}})
 	// arrays
 	items := []*RuleSpec{
